@@ -23,7 +23,8 @@
        qua->bms: writer | sm->osu: reader, writer | sm->qua: reader | sm->bms: reader, writer | bms->osu: reader, writer |
        bms->qua: reader | bms->sm: reader, writer | o2j->osu: writer | o2j->sm: writer | o2j->bms: writer.
    For those pairs the statement is decided on every run on the implementation's files by the reference interpreters
-   (Corr/RunC09.v), and several of them are FALSE of the pinned tree: see the witnesses below and docs/C09.md. *)
+   (Corr/RunC09.v); the check found them FALSE of the pinned tree in ten ways, six of which are repaired in /repo: see the
+   OLD / current witnesses below and docs/C09.md. *)
 From Coq Require Import ZArith QArith Qround Qabs List Bool Permutation.
 From RV Require Import Base.PyNum Formats.Timeline Generated.Tables Proofs.PipelineProofs.
 From RV Require Formats.Osu Formats.OsuSpec Formats.Qua Formats.QuaSpec Formats.SM Formats.SMSpec Formats.BMSSpec
@@ -146,25 +147,36 @@ Theorem C09_o2jam_reader_half_partial : forall f trail, O2JSpec.wf_file f = true
         /\ Forall (fun n => (0 <= tn_col n < 7)%Z) (tl_notes (tl_of_omap md)).
 Proof. exact (o2j_reader_half C09_ojn_layout_is_reference). Qed.
 
-(* ================= defects of the pinned tree: refuted on real files =================
-   Each witness: a source file inside its format's domain and inside the composition's domain (wf_ok), the file the
-   pinned pipeline wrote for it (spec_ok = false: the written file does not carry the source's timeline), and the same
-   written file with the single field the proposed repair changes (spec_ok = corr_ok = true). *)
-(* OsuToSM: sms.offset = 0.0 although the first timing point is at 500 ms -> everything 500 ms early *)
-Theorem C09_osu_to_sm_offset_refuted :
-  RunC09.wf_ok (RunC09.check w_osu_sm_offset_pinned) = true /\ RunC09.spec_ok (RunC09.check w_osu_sm_offset_pinned) = false
-  /\ RunC09.spec_ok (RunC09.check w_osu_sm_offset_repaired) = true /\ RunC09.corr_ok (RunC09.check w_osu_sm_offset_repaired) = true.
-Proof. exact witness_osu_sm_offset. Qed.
-(* QuaToSM: sms.offset = stack().offset.min() picks a scroll velocity 100 ms before the first timing point *)
-Theorem C09_qua_to_sm_offset_refuted :
-  RunC09.wf_ok (RunC09.check w_qua_sm_offset_pinned) = true /\ RunC09.spec_ok (RunC09.check w_qua_sm_offset_pinned) = false
-  /\ RunC09.spec_ok (RunC09.check w_qua_sm_offset_repaired) = true /\ RunC09.corr_ok (RunC09.check w_qua_sm_offset_repaired) = true.
-Proof. exact witness_qua_sm_offset. Qed.
-(* SMToOsu: CircleSize stays 4 for a 7-key chart -> column 6 is written at x = 832 and denotes column 3 *)
-Theorem C09_sm_to_osu_circle_size_refuted :
-  RunC09.wf_ok (RunC09.check w_sm_osu_cs_pinned) = true /\ RunC09.spec_ok (RunC09.check w_sm_osu_cs_pinned) = false
-  /\ RunC09.spec_ok (RunC09.check w_sm_osu_cs_repaired) = true /\ RunC09.corr_ok (RunC09.check w_sm_osu_cs_repaired) = true.
-Proof. exact witness_sm_osu_circle_size. Qed.
+(* ================= defects found, on real files: the OLD written file refuted, the current one accepted =================
+   Each witness: a source file inside its format's domain and inside the composition's domain (wf_ok) with
+     _OLD     the file the tree BEFORE the repair wrote for it, kept verbatim (spec_ok = false: it does not carry the source's
+              timeline) - a statement about the OLD behaviour only, nothing in /repo writes this any more;
+     _current the file the repaired tree writes for the same source (spec_ok = corr_ok = true).
+   The same sources are replayed on the implementation on every run (corpus/C09): a recurrence is a VIOLATION. *)
+(* OsuToSM before cdbdcdf: sms.offset = 0.0 although the first timing point is at 500 ms -> everything 500 ms early *)
+Theorem C09_OLD_osu_to_sm_offset_refuted :
+  RunC09.wf_ok (RunC09.check w_osu_sm_offset_OLD) = true /\ RunC09.spec_ok (RunC09.check w_osu_sm_offset_OLD) = false.
+Proof. exact witness_OLD_osu_sm_offset_refuted. Qed.
+Theorem C09_osu_to_sm_offset_current :
+  RunC09.wf_ok (RunC09.check w_osu_sm_offset_current) = true /\ RunC09.spec_ok (RunC09.check w_osu_sm_offset_current) = true
+  /\ RunC09.corr_ok (RunC09.check w_osu_sm_offset_current) = true.
+Proof. exact witness_osu_sm_offset_current. Qed.
+(* QuaToSM before cdbdcdf: sms.offset = stack().offset.min() picked a scroll velocity 100 ms before the first timing point *)
+Theorem C09_OLD_qua_to_sm_offset_refuted :
+  RunC09.wf_ok (RunC09.check w_qua_sm_offset_OLD) = true /\ RunC09.spec_ok (RunC09.check w_qua_sm_offset_OLD) = false.
+Proof. exact witness_OLD_qua_sm_offset_refuted. Qed.
+Theorem C09_qua_to_sm_offset_current :
+  RunC09.wf_ok (RunC09.check w_qua_sm_offset_current) = true /\ RunC09.spec_ok (RunC09.check w_qua_sm_offset_current) = true
+  /\ RunC09.corr_ok (RunC09.check w_qua_sm_offset_current) = true.
+Proof. exact witness_qua_sm_offset_current. Qed.
+(* SMToOsu before 24f5d51: CircleSize stayed 4 for a 7-key chart -> column 6 written at x = 832, denoting column 3 *)
+Theorem C09_OLD_sm_to_osu_circle_size_refuted :
+  RunC09.wf_ok (RunC09.check w_sm_osu_cs_OLD) = true /\ RunC09.spec_ok (RunC09.check w_sm_osu_cs_OLD) = false.
+Proof. exact witness_OLD_sm_osu_cs_refuted. Qed.
+Theorem C09_sm_to_osu_circle_size_current :
+  RunC09.wf_ok (RunC09.check w_sm_osu_cs_current) = true /\ RunC09.spec_ok (RunC09.check w_sm_osu_cs_current) = true
+  /\ RunC09.corr_ok (RunC09.check w_sm_osu_cs_current) = true.
+Proof. exact witness_sm_osu_cs_current. Qed.
 
 (* ================= non-vacuity =================
    a well-formed OJN file (tempo 240 from measure 1, a tap at measure 0 and one at measure 2 on column 0, a long note on
